@@ -328,7 +328,9 @@ def execute(sc, workdir):
     settings = _pick(sc, grid)
     hint = sc.get("confirm_hint")
     if hint is not None:
-        settings = [settings[i] for i in hint if i < len(settings)]
+        # confirmation run on the stock interpreter: replay the PREFIX of sessions up to the first failing one
+        # (memory contents and previously latched settings are history, so sessions are not replayed in isolation)
+        settings = settings[:max(hint) + 1]
     events, cycles, keys = _run(sc, settings)
     if sc.get("diff") and env.fastsim_enabled():
         prev = os.environ.get("VERIF_FASTSIM")
@@ -366,13 +368,13 @@ def execute(sc, workdir):
                 st = events[j]["set"]
                 break
         bad.append(b[2:] + [dict(line=ln, session=si, set=st)])
-        hints.append(si if hint is None else hint[si])
+        hints.append(si)
     if not os.environ.get("VERIF_KEEP"):
         os.remove(tf)
     stt = info["stats"]
     nsess = sum(1 for e in events if e["c"] == "NEW")
     sample = dict(cfg=header, cycles=cycles, sessions=nsess, stats=stt, first_events=events[:8])
-    return dict(bad=bad, confirm_hint=(sorted(set(hints))[:2] if hints else None), evaluations=stt["runs"] + nsess, nontrivial=keys,
+    return dict(bad=bad, confirm_hint=([min(hints)] if hints else None), evaluations=stt["runs"] + nsess, nontrivial=keys,
                 traces=1, sample=sample,
                 stats=dict(cycles=cycles, events=len(events), sessions=nsess, checker_runs=stt["runs"], runs_expect0_norepeat=stt["clean0"],
                            runs_corrupted=stt["corrupted"], sessions_with_repeated_addresses=stt["repeats"]),
